@@ -3,7 +3,7 @@
   `Cjet.Props.C04`, with the reflection lemmas that let the kernel check them (`decide +kernel`
   on Bool-valued views; `Json` has no decidable equality).
 -/
-import Cjet.Lemmas.DaemonC04Spec
+import Cjet.Lemmas.DaemonC04Out
 
 namespace Cjet.Daemon.C04
 
